@@ -46,6 +46,8 @@ GROUPS = {
                 modpath="eval::verif_c13", crate=ENGINE),
     "c11": dict(file="c11.rs", into="weechess-core/src/notation.rs", scope="mod fen", mod="verif_c11", pub=True,
                 modpath="notation::fen::verif_c11", crate=CORE),
+    "c15r": dict(file="c15_routing.rs", into="weechess-engine/src/searcher.rs", scope=None, mod="verif_c15_routing", pub=False,
+                 modpath="searcher::verif_c15_routing", crate=ENGINE),
     "c18": dict(file="c18.rs", into="weechess-engine/src/uci.rs", scope=None, mod="verif_c18", pub=False,
                 modpath="uci::verif_c18", crate=ENGINE),
     "c01p": dict(file="c01_perft.rs", into="weechess-engine/src/searcher.rs", scope=None, mod="verif_c01_perft", pub=False,
@@ -61,6 +63,13 @@ EXTRACTS = [
          header="#[allow(unused_mut, unused_variables, unused_assignments)]\npub fn ucinewgame_arm<S: SearchLike>(mut current_search: Option<S>, "
                 "mut previous_artifact: Option<S::Artifact>) -> (Option<S>, Option<S::Artifact>) {",
          footer="(current_search, previous_artifact)\n"),
+    # the routing layer of the transposition table: every method of TranspositionTableAccess except the test constructor and iter_moves
+    # (which names the real access type), verbatim, compiled in the harness
+    # against a sequential model of std::sync::RwLock (kani/c15_routing.rs)
+    dict(kind="fns", file="weechess-engine/src/searcher.rs", scopes=["impl TranspositionTableAccess"],
+         items=["struct TranspositionTableAccess"], fns="*", exclude=["small", "iter_moves"],
+         require=["with_tables", "insert", "find", "entries", "max_entries"], out="tt_access_extracted.rs",
+         header="#[allow(dead_code)]\nimpl TranspositionTableAccess {", footer="}"),
     # the FEN reader after its regex gate: everything from the first field parser call to the end of the function,
     # with `groups` an index-by-number view of the six captured fields (same Index<usize, Output = str> as regex::Captures)
     dict(kind="fn_tail", file="weechess-core/src/notation.rs", scopes=["mod fen", "impl TryFromNotation<State> for Fen"],
@@ -221,10 +230,16 @@ PROPS["C08"] = dict(
           "rights, ep => equal hash for arbitrary (different) clocks", functions=H, timeout=1500),
         K("c08", "c08_separates_castling_rights", desc="positions differing in exactly one castling right differ by exactly "
           "that right's key (so differently unless the key is 0)", functions=H),
-        K("c08", "c08_separates_en_passant_white", kind="bounded", bound="one concrete placement (pawns d5 e5 f5), symbolic rights and keys",
-          desc="en-passant capture available vs. not, and the two target files, differ by exactly the ep file keys", functions=H),
-        K("c08", "c08_separates_en_passant_black", kind="bounded", bound="one concrete placement (pawns d4 e4 f4), symbolic rights and keys",
-          desc="same, Black to move", functions=H),
+    ] + [
+        K("c08", "c08_separates_en_passant_%s_%s" % (c, f), kind="bounded", bound="one concrete placement per harness: victim pawn on file %s, capturing pawns on "
+          "the neighbouring files; symbolic rights and keys" % f, tier=("quick" if f in "aeh" else "thorough"),
+          desc="%s to move, en-passant capture AVAILABLE on file %s: with vs. without the target differ by exactly that file's key; targets on two "
+          "files are separated by the two keys" % (c, f), functions=H)
+        for c in ["white", "black"] for f in "abcdefgh"
+    ] + [
+        K("c08", "c08_placement_formula_symbolic_2", kind="bounded", bound="<= 2 pieces per piece index (up to 24 pieces), squares fully symbolic", tier="experimental",
+          desc="hash == components ^ XOR over occupied squares of K[square][piece], arbitrary position, fully symbolic key tables", functions=H,
+          timeout=3600, heavy=True, mem_gb=24, unwindset_rules=[("hash", r"iter_ones\(\)", 3)]),
         K("c08", "c08_separates_side_to_move", desc="side to move separated unless the two turn keys coincide", functions=H),
         dict(name="c08_native_placement_exhaustive", backend="native", kind="bounded", tier="quick", crate=CORE, file="c08.rs",
              test="c08_native_placement_exhaustive", bound="native execution (not symbolic): key tables from 3 seeds x 3 component settings x every "
@@ -630,9 +645,13 @@ PROPS["C15"] = dict(
         K("c15", "c15_bucket_insert_contract", desc="insert_or_replace: find(h)==e afterwards; other keys kept unless Replaced "
           "(bucket full, h absent, exactly one victim); Inserted <=> count+1; invariant preserved; fully symbolic 8 slots",
           functions=["TranspositionBucket::insert_or_replace", "TranspositionInsertionResult::inserted"]),
-        K("c15", "c15_access_routing_bounded", kind="bounded", bound="2 sub-tables x 2 buckets, one insert, symbolic keys and entry; sequential execution", tier="experimental",
-          desc="TranspositionTableAccess insert-then-find hits the same sub-table and bucket; another key is not found",
-          functions=["TranspositionTableAccess::{insert,find}"], timeout=2400),
+        K("c15r", "c15_access_insert_routes_by_key", desc="TranspositionTableAccess::insert (verbatim, against a sequential lock model and the table's "
+          "contract): for every table count 1..=8 (thorough: 1..=128), key and entry exactly one sub-table is written, it is sub-table hash mod n, and it receives "
+          "the full 64-bit key and the entry unchanged", functions=["TranspositionTableAccess::insert"], timeout=1800),
+        K("c15r", "c15_access_find_routes_by_key", desc="TranspositionTableAccess::find: asks the same sub-table (hash mod n) for exactly the full key and "
+          "returns a copy of its answer; nothing is written", functions=["TranspositionTableAccess::find"], timeout=1800),
+        K("c15r", "c15_access_counts_are_sums", kind="bounded", bound="<= 8 sub-tables", desc="entries()/max_entries() are the sums of the sub-tables' answers, each "
+          "sub-table counted once", functions=["TranspositionTableAccess::entries", "TranspositionTableAccess::max_entries"], timeout=1800),
         V("c15_table_find", ["TranspositionTable::find"], "Verus, Vec of any length: find(h) == view(h), reads only bucket h % len"),
         V("c15_table_insert", ["TranspositionTable::insert", "lemma_sum_update", "lemma_sum_strict", "lemma_sum_bound"],
           "Verus, Vec of any length: insert preserves wf (used_slots == sum of occupied, no overflow), establishes "
@@ -648,19 +667,22 @@ PROPS["C15"] = dict(
         "the Verus prelude restates the Kani-proved bucket contract (find / insert_or_replace) as assume_specification-style "
         "external_body specs; consistency of the two statements is by review",
         "bucket count > 0 and 8*len <= usize::MAX (requires; the property's quantifier starts at 1)",
+        "routing layer: std::sync::RwLock is replaced by a sequential model (RefCell: read()/write() succeed and give shared/exclusive access, a "
+        "conflicting access on the one thread panics); sub-table counts 1..=8 (production uses 128; the index expression `hash as usize % len` "
+        "is loop-free and the same in insert and find)",
     ],
     assumed_contracts=["TranspositionBucket::{find,insert_or_replace} in Verus = the contract Kani proves (c15_bucket_*)"],
     not_claimed=["behaviour under real thread interleavings (assumed via lock discipline)",
-                 "the routing layer TranspositionTableAccess::{insert,find} (hash % tables.len() then RwLock read/write): a "
-                 "harness through std::sync::RwLock exhausted the 12 GB cap in CBMC even for 2 sub-tables x 2 buckets, so it is "
-                 "neither proved nor bounded-checked; both methods use the same index expression (by reading)"],
+                 "std::sync::RwLock itself: the routing layer is verified against a sequential model of the lock (a harness through the real "
+                 "futex-based RwLock exhausted the 12 GB cap in CBMC even for 2 sub-tables x 2 buckets)"],
     technique="Kani/CBMC contract proof of the 8-slot bucket over fully symbolic content + Verus proof of the table over a Vec of "
               "any length on verbatim function bodies",
     level_text="Proof: the bucket contract is decided completely (all 8 slots, keys and entries symbolic); the table contract "
                "(representation invariant used_slots == number of occupied slots, lookup returns the entry under exactly that "
                "key, frame and displacement clauses) is proved by Verus for every bucket count on the verbatim bodies of "
                "find/insert/entries/max_entries; histories follow by induction over these contracts.",
-    level_note="Concurrency is assumed through the lock discipline, not proved. The RwLock routing layer is not verified.",
+    level_note="Concurrency is assumed through the lock discipline, not proved. The routing layer (insert/find/entries/max_entries of "
+               "TranspositionTableAccess, verbatim) is verified against a sequential model of RwLock and the table's contract, for 1..=8 sub-tables.",
 )
 
 PROPS["C18"] = dict(
